@@ -274,6 +274,7 @@ where
                                             panic!("source must not pull");
                                         },
                                         Message::Error(error) => {
+                                            end.store(true, AtomicOrdering::Release);
                                             call!(
                                                 sink,
                                                 Message::Error(error),
@@ -281,6 +282,7 @@ where
                                             );
                                         },
                                         Message::Terminate => {
+                                            end.store(true, AtomicOrdering::Release);
                                             call!(sink, Message::Terminate, "to sink: {message:?}");
                                         },
                                     }
